@@ -47,7 +47,7 @@ class C16(Prop):
                 start = Fraction(rng.choice([1_700_000_000, 10**9, 2**40, 1_600_000_000]))
                 step = Fraction(rng.choice([1, 1, 2, 4]), rng.choice([1, 2, 4]))
             r = rng.random()
-            n = rng.randint(1, 40)
+            n = rng.randint(0, 40)  # 0: quotients below 1 (one point, or none when the quotient is below 1/2)
             if r < 0.5:
                 stop = start + n * step
             elif r < 0.8:
